@@ -376,6 +376,8 @@ contract(AR_ + '._assertion', types={'assertion': ASRT, 'verified': 'Any'}, retu
                   ('C01-assertion-signature-verified',
                    'implies(truthy(assertion.signature) and not truthy(verified) and self.do_not_verify is False and truthy(assertion.id), '
                    'SIG_OK(self.sec, self.xmlstr, assertion, cname(assertion), None))'),
+                  ('C01-assertion-reference-own-id',
+                   'implies(truthy(assertion.signature) and not truthy(verified) and self.do_not_verify is False, REF_OK(assertion))'),
                   ('C04-conditions-window',
                    'implies(not truthy(self.test) and assertion.conditions is not None and truthy(assertion.conditions.not_on_or_after), '
                    'NOW <= epoch(assertion.conditions.not_on_or_after) + self.timeslack) and '
@@ -397,7 +399,7 @@ contract(AR_ + '._assertion', types={'assertion': ASRT, 'verified': 'Any'}, retu
                  'Exception': 'True'},
          modifies=['self.assertion', 'self.came_from', 'self.name_id', 'self.not_on_or_after', 'self.session_not_on_or_after',
                    'assertion.subject.subject_confirmation'],
-         clauses_from={'C02': ['C02-required-assertion-signature'], 'C01': ['C01-assertion-signature-verified'],
+         clauses_from={'C02': ['C02-required-assertion-signature'], 'C01': ['C01-assertion-signature-verified', 'C01-assertion-reference-own-id'],
                        'C20': ['C01-assertion-signature-verified'],
                        'C04': ['C04-conditions-window', 'C04-session-window'],
                        'C05': ['C05-audience', 'C05-confirmations', 'C05-solicited'],
@@ -443,7 +445,7 @@ EA = "List(Inst('saml2_tophat.saml:EncryptedAssertion'))"
 contract('saml2_tophat:extension_elements_to_elements', trusted=True, params=['extension_elements', 'schemas'],
          returns="List(Inst('saml2_tophat.saml:Assertion'))",
          ensures=['fresh(result)', 'forall(lambda j: typed(result[j], "Inst(\'saml2_tophat.saml:Assertion\')"), 0, len(result))'],
-         assumptions=['E-PARSE'],
+         assumptions=['E-PARSE'], modifies=[],
          note='ASSUMED: the typed elements found among the extension elements (for an EncryptedAssertion: the decrypted assertions)')
 contract(AR_ + '.decrypt_assertions',
          types={'encrypted_assertions': EA, 'decr_txt': 'Union(Str, Bytes)', 'issuer': "Opt(Inst('saml2_tophat.saml:Issuer'))", 'verified': 'Bool'},
